@@ -46,6 +46,11 @@ impl CodeMapper {
         self.alphabet_size
     }
 
+    #[cfg(daachorse_verif)]
+    pub(crate) fn verif_table(&self) -> &[u32] {
+        &self.table
+    }
+
     #[inline]
     #[allow(dead_code)]
     pub fn heap_bytes(&self) -> usize {
